@@ -149,3 +149,39 @@ func hC02Pipe() {
 		verifAssert(sameMsgs(got, reqMsgs), "C02: body carries the client's messages")
 	}
 }
+
+// hC02UnaryCount: a unary method called by an enveloped client (gRPC, gRPC-Web) that sends two complete request
+// messages. A backend without envelopes (Connect unary, REST) must never be handed the two messages run together
+// as one request body, and the call must not be reported as a success.
+func hC02UnaryCount() {
+	cfg := &pipeCfg{maxMsg: 64, kind: fkUnary}
+	cfg.client = verifChoose("client", 2) // gRPC, gRPC-Web
+	cfg.svcProtos = []Protocol{[]Protocol{ProtocolConnect, ProtocolREST}[verifChoose("target", 2)]}
+	cfg.clientCodec = []string{CodecProto, CodecJSON}[verifChoose("clientCodec", 2)]
+	cfg.svcCodecs = []string{cfg.clientCodec}
+	if verifChoose("reencode", 2) == 1 {
+		cfg.svcCodecs = []string{map[string]string{CodecProto: CodecJSON, CodecJSON: CodecProto}[cfg.clientCodec]}
+	}
+	p := newPipe(cfg)
+	if !p.buildOK {
+		return
+	}
+	target, codec, comp := refNegotiate(cfg)
+	p.backend.script = &respScript{msgs: []wireMsg{{abstract: []byte{'r'}}}}
+	m1 := wireMsg{abstract: nondetBytes("m1", 1)}
+	m2 := wireMsg{abstract: nondetBytes("m2", 1)}
+	p.req = buildClientRequest(cfg, nil, p.body)
+	p.body.data = appendFrame(appendFrame(nil, 0, encodeMsg(cfg.clientCodec, m1)), 0, encodeMsg(cfg.clientCodec, m2))
+	p.tr.ServeHTTP(p.sink, p.req)
+	out := refParseClientResponse(cfg, p.sink, p.backend.rec.calls > 0)
+	verifObsInt("calls", int64(p.backend.rec.calls))
+	verifObsBytes("backend-body", p.backend.rec.body)
+	verifObsInt("client-code", int64(out.code))
+	verifReach("two-messages-for-a-unary-method")
+	if p.backend.rec.calls > 0 && p.backend.rec.readErr == nil {
+		msgs, ok := refParseBackendBody(target, true, codec, comp, p.backend.rec.body)
+		one := ok && len(msgs) == 1 && (bytesEq(msgs[0], m1.abstract) || bytesEq(msgs[0], m2.abstract))
+		verifAssert(one || !ok, "C02: a unary backend is not handed two client messages run together as one request")
+	}
+	verifAssert(!(out.valid && out.code == 0), "C02: a unary call that carried two request messages is not reported as a success")
+}
